@@ -9,6 +9,7 @@
 //! `adv`   — a real channel advanced through the protocol handler; every API that hands out a
 //!           per-commitment point or secret, at every state and after restarts, against the
 //!           derivation for the number asked (see below).
+//! `ids`   — channels named by (peer id, dbid) with dbids at the boundaries of u64 (see below).
 //! `store` — VLS's CounterpartyCommitmentSecrets against Model/Secrets.v on the same index
 //!           sequences (descending, with gaps, wrong secrets, repeats, malformed), fed with the real
 //!           released secrets of a real channel.  Monitor: after a descending feed every earlier
@@ -48,6 +49,15 @@ fn hexs(b: &[u8]) -> String {
 }
 fn coq_bytes(b: &[u8]) -> String {
     coq_list(&b.iter().map(|x| x.to_string()).collect::<Vec<_>>())
+}
+/// the harness's own encoding of the channel a (peer id, dbid) pair names: peer_id(33) ++ dbid as
+/// eight little-endian bytes (NOT ChannelId::new_from_peer_id_and_oid -- that is under test)
+fn own_id(peer: &[u8; 33], dbid: u64) -> Vec<u8> {
+    let mut v = peer.to_vec();
+    for i in 0..8 {
+        v.push(((dbid >> (8 * i)) & 0xff) as u8);
+    }
+    v
 }
 fn style_name(s: KeyDerivationStyle) -> &'static str {
     match s {
@@ -346,7 +356,7 @@ fn hist(args: &Args) {
             }
         }
         let chan_ids: Vec<ChannelId> =
-            ids.iter().map(|(p, d)| ChannelId::new_from_peer_id_and_oid(p, *d)).collect();
+            ids.iter().map(|(p, d)| ChannelId::new(&own_id(p, *d))).collect();
         let with_setup: Vec<bool> = (0..k).map(|_| rng.chance(2, 3)).collect();
         // some channels get a permanent channel id at setup (restore must still derive from id0)
         let perm_ids: Vec<Option<ChannelId>> = (0..k)
@@ -1227,11 +1237,25 @@ fn adv(args: &Args) {
         let secp = Secp256k1::new();
         let peer = PublicKey::from_secret_key(&secp, &SecretKey::from_slice(&rng.bytes32()).unwrap_or(SecretKey::from_slice(&[9u8; 32]).unwrap())).serialize();
         let dbid = gen_dbid(&mut rng);
-        let (id, _) = node.new_channel(dbid, &peer, &node).expect("new_channel");
+        node.new_channel(dbid, &peer, &node).expect("new_channel");
+        let id = ChannelId::new(&own_id(&peer, dbid));
         let mut setup = make_test_channel_setup();
         setup.channel_value_sat = VALUE;
-        node.setup_channel(id.clone(), None, setup.clone(), &lightning_signer::bitcoin::bip32::DerivationPath::master())
-            .expect("setup");
+        if node
+            .setup_channel(id.clone(), None, setup.clone(), &lightning_signer::bitcoin::bip32::DerivationPath::master())
+            .is_err()
+        {
+            // the channel Node::new_channel(dbid, peer) made is not the one peer_id || dbid_le names
+            emit(
+                "CASE",
+                json!({"kind": "adv", "style": style_name(style), "proto": proto, "seed": hexs(&seed), "channel_id": hexs(id.as_slice()),
+                       "history": ["new_channel", "setup_channel"], "has_secrets": false, "next_holder_commit_num": 0,
+                       "monitor_violations": [{"what": "setup_channel does not find the channel of Node::new_channel(dbid, peer) under peer_id || dbid_le",
+                                               "peer": hexs(&peer), "dbid": dbid.to_string(), "history": ["new_channel", "setup_channel"]}],
+                       "coq": "(* no case *)"}),
+            );
+            continue;
+        }
         let nctx = TestNodeContext { node: node.clone(), secp_ctx: Secp256k1::signing_only() };
         let cp_keys = make_test_counterparty_keys(&nctx, &id, VALUE);
         let cctx = TestChannelContext { channel_id: id.clone(), setup, counterparty_keys: cp_keys };
@@ -1374,6 +1398,280 @@ fn adv(args: &Args) {
     );
 }
 
+// -------------------------------------------------------------------------------------------- ids
+//
+// Channels are named by (peer id, dbid).  A node gets channels of two peers whose dbids sit at
+// the boundaries of the 64-bit range (pairs that agree in their low 32 bits, 2^32-1, 2^32,
+// 2^48+k, 2^63, 2^64-2, 2^64-1, high 32 bits only), created through Node::new_channel and through
+// the NewChannel message, in both orders, with a restart.  Every pair must be its own channel:
+// found under the harness's own peer||dbid_le encoding, with that id in the slot and in the store,
+// with keys (funding, basepoints, points 0/1, commitment seed, first secrets) that differ pairwise
+// and are the same through every entry point, in both orders and across the restart.
+
+fn ids(args: &Args) {
+    use lightning_signer::persist::Persist;
+    let mut rng = Rng::new(args.seed ^ 0x696473);
+    let (mut n_channels, mut n_pairs, mut n_handler_new, mut n_low32_pairs) = (0u64, 0u64, 0u64, 0u64);
+    for case in 0..args.n {
+        let seed = rng.bytes32();
+        let style = if case % 2 == 0 { KeyDerivationStyle::Native } else { KeyDerivationStyle::Ldk };
+        let proto = [6u32, 5, 4][case % 3];
+        let secp = Secp256k1::new();
+        let pa = PublicKey::from_secret_key(&secp, &SecretKey::from_slice(&rng.bytes32()).unwrap_or(SecretKey::from_slice(&[9u8; 32]).unwrap())).serialize();
+        let pb = PublicKey::from_secret_key(&secp, &SecretKey::from_slice(&rng.bytes32()).unwrap_or(SecretKey::from_slice(&[8u8; 32]).unwrap())).serialize();
+        let k = *rng.pick(&[1u64, 2, 7, 255, 65536]) + rng.below(3);
+        let hi = 1 + rng.below(u32::MAX as u64);
+        let mut names: Vec<([u8; 33], u64)> = vec![
+            (pa, k), (pa, k + (1 << 32)), (pa, (1 << 32) - 1), (pa, 1 << 32), (pa, (1 << 32) + 1), (pa, (1 << 48) + k),
+            (pa, 1 << 63), (pa, u64::MAX - 1), (pa, u64::MAX), (pa, hi << 32), (pa, (hi << 32) + k),
+            (pb, k), (pb, k + (1 << 32)), (pb, 1 << 63), (pb, hi << 32),
+        ];
+        names.dedup();
+        let mut uniq: Vec<([u8; 33], u64)> = vec![];
+        for nm in names {
+            if !uniq.contains(&nm) {
+                uniq.push(nm);
+            }
+        }
+        let names = uniq;
+        let n = names.len();
+        for i in 0..n {
+            for j in (i + 1)..n {
+                if names[i].0 == names[j].0 && (names[i].1 as u32) == (names[j].1 as u32) {
+                    n_low32_pairs += 1;
+                }
+            }
+        }
+        let mut violations: Vec<serde_json::Value> = vec![];
+        // per name: what the first run showed (observation by own id + what the handlers said)
+        let mut canon: Vec<Option<(Obs, Vec<String>)>> = vec![None; n];
+        let mut real_ids: Vec<Option<Vec<u8>>> = vec![None; n];
+        let mut histories: Vec<Vec<String>> = vec![];
+        for run_ix in 0..2usize {
+            let order: Vec<usize> = if run_ix == 0 { (0..n).collect() } else { (0..n).rev().collect() };
+            let world = World::new(World::default_policy(), seed, style);
+            let mut node = world.new_node();
+            let node_id = node.get_id();
+            let mut hist: Vec<String> = vec![];
+            let mut root = make_root_handler(&node, proto);
+            for &i in &order {
+                let (peer, dbid) = names[i];
+                let before = node.get_channels().len();
+                if (i + run_ix) % 2 == 0 {
+                    hist.push(format!("Node::new_channel(dbid={}, peer={})", dbid, if peer == pa { "A" } else { "B" }));
+                    if let Err(_) = node.new_channel(dbid, &peer, &node) {
+                        violations.push(json!({"what": "Node::new_channel refused a fresh (peer, dbid)", "peer": hexs(&peer), "dbid": dbid.to_string(), "run": run_ix}));
+                    }
+                } else {
+                    hist.push(format!("NewChannel{{dbid={}, peer={}}}", dbid, if peer == pa { "A" } else { "B" }));
+                    n_handler_new += 1;
+                    let bytes = msgs::NewChannel { peer_id: PubKey(peer), dbid }.as_vec();
+                    let ok = msgs::from_vec(bytes).ok().map(|m| root.handle(m).is_ok()).unwrap_or(false);
+                    if !ok {
+                        violations.push(json!({"what": "the NewChannel message was refused for a fresh (peer, dbid)", "peer": hexs(&peer), "dbid": dbid.to_string(), "run": run_ix}));
+                    }
+                }
+                let after = node.get_channels().len();
+                if after != before + 1 {
+                    violations.push(json!({
+                        "what": format!("creating a channel for a new (peer, dbid) left the node with {} channels instead of {}: the pair does not name a channel of its own", after, before + 1),
+                        "peer": hexs(&peer), "dbid": dbid.to_string(), "run": run_ix, "history": hist.clone()}));
+                }
+                // some of them are set up, so that secrets can be released
+                if i % 3 == 0 {
+                    let _ = node.setup_channel(
+                        ChannelId::new(&own_id(&peer, dbid)),
+                        None,
+                        make_setup(i, run_ix),
+                        &lightning_signer::bitcoin::bip32::DerivationPath::master(),
+                    );
+                }
+            }
+            for phase in ["before restart", "after restart"] {
+                if phase == "after restart" {
+                    hist.push("restart".into());
+                    node = world.restart(&node_id);
+                    root = make_root_handler(&node, proto);
+                }
+                let count = node.get_channels().len();
+                let stored: Vec<Vec<u8>> = world
+                    .persister
+                    .get_node_channels(&node_id)
+                    .expect("channels")
+                    .into_iter()
+                    .map(|(id, _)| id.as_slice().to_vec())
+                    .collect();
+                if count != n || stored.len() != n {
+                    violations.push(json!({
+                        "what": format!("{} (peer, dbid) pairs were created but the node has {} channels and the store {} entries ({})", n, count, stored.len(), phase),
+                        "run": run_ix, "history": hist.clone()}));
+                }
+                let mut shown: Vec<Option<(Obs, Vec<String>)>> = vec![None; n];
+                for i in 0..n {
+                    let (peer, dbid) = names[i];
+                    let own = own_id(&peer, dbid);
+                    if !stored.contains(&own) {
+                        violations.push(json!({
+                            "what": format!("the store has no channel entry under peer_id || dbid_le ({})", phase),
+                            "peer": hexs(&peer), "dbid": dbid.to_string(), "run": run_ix, "history": hist.clone()}));
+                    }
+                    let mut errs = vec![];
+                    let o = match observe(&node, &ChannelId::new(&own), &[], &mut errs) {
+                        Some(o) => o,
+                        None => {
+                            violations.push(json!({
+                                "what": format!("the channel of a (peer, dbid) pair is not found under peer_id || dbid_le ({})", phase),
+                                "peer": hexs(&peer), "dbid": dbid.to_string(), "run": run_ix, "history": hist.clone()}));
+                            continue;
+                        }
+                    };
+                    for e in errs {
+                        violations.push(json!({"what": e, "dbid": dbid.to_string(), "run": run_ix}));
+                    }
+                    // the id the signer uses for it
+                    if let Ok(slot) = node.get_channel(&ChannelId::new(&own)) {
+                        let real = slot.lock().unwrap().id().as_slice().to_vec();
+                        if real != own {
+                            violations.push(json!({"what": "the slot's id0 is not peer_id || dbid_le", "dbid": dbid.to_string(), "slot_id": hexs(&real), "run": run_ix}));
+                        }
+                        real_ids[i] = Some(real);
+                    }
+                    // the same channel through the entry points that name it by (peer, dbid)
+                    let mut via_handler: Vec<String> = vec![];
+                    let bytes = msgs::GetChannelBasepoints { node_id: PubKey(peer), dbid }.as_vec();
+                    match msgs::from_vec(bytes).ok().and_then(|m| root.handle(m).ok()).map(|r| msgs::from_vec(r.as_vec())) {
+                        Some(Ok(Message::GetChannelBasepointsReply(rep))) => {
+                            via_handler = vec![
+                                hexs(&rep.funding.0), hexs(&rep.basepoints.revocation.0), hexs(&rep.basepoints.payment.0),
+                                hexs(&rep.basepoints.delayed_payment.0), hexs(&rep.basepoints.htlc.0),
+                            ];
+                            if via_handler != o.basepoints {
+                                violations.push(json!({
+                                    "what": format!("GetChannelBasepoints{{peer, dbid}} answers with other keys than the channel under peer_id || dbid_le has ({})", phase),
+                                    "peer": hexs(&peer), "dbid": dbid.to_string(), "run": run_ix, "history": hist.clone()}));
+                            }
+                        }
+                        _ => violations.push(json!({"what": format!("GetChannelBasepoints{{peer, dbid}} was refused ({})", phase), "dbid": dbid.to_string(), "run": run_ix})),
+                    }
+                    let ch = root.for_new_client(1, PubKey(peer), dbid);
+                    for num in 0..=1u64 {
+                        let msg = if proto >= 6 || num == 1 {
+                            Message::GetPerCommitmentPoint2(msgs::GetPerCommitmentPoint2 { commitment_number: num })
+                        } else {
+                            Message::GetPerCommitmentPoint(msgs::GetPerCommitmentPoint { commitment_number: num })
+                        };
+                        let p = match ch.handle(msg).ok().map(|r| msgs::from_vec(r.as_vec())) {
+                            Some(Ok(Message::GetPerCommitmentPoint2Reply(rep))) => Some(hexs(&rep.point.0)),
+                            Some(Ok(Message::GetPerCommitmentPointReply(rep))) => Some(hexs(&rep.point.0)),
+                            _ => None,
+                        };
+                        match (&p, o.points.get(&num)) {
+                            (Some(a), Some(b)) if a == b => via_handler.push(a.clone()),
+                            _ => violations.push(json!({
+                                "what": format!("GetPerCommitmentPoint({}) through the (peer, dbid) channel handler differs from the channel under peer_id || dbid_le ({})", num, phase),
+                                "peer": hexs(&peer), "dbid": dbid.to_string(), "run": run_ix, "history": hist.clone()})),
+                        }
+                    }
+                    // stability: across the restart, and between the two creation orders
+                    match &canon[i] {
+                        None => canon[i] = Some((o.clone(), via_handler.clone())),
+                        Some((c, vh)) => {
+                            if c.basepoints != o.basepoints || c.keys != o.keys || c.keys_id != o.keys_id
+                                || c.points.get(&0) != o.points.get(&0) || c.points.get(&1) != o.points.get(&1)
+                                || (c.secrets.get(&0).is_some() && o.secrets.get(&0).is_some() && c.secrets.get(&0) != o.secrets.get(&0))
+                                || *vh != via_handler
+                            {
+                                violations.push(json!({
+                                    "what": format!("the keys of one (peer, dbid) channel differ between the two creation orders or across the restart ({}, order {})", phase, run_ix),
+                                    "peer": hexs(&peer), "dbid": dbid.to_string(), "run": run_ix, "history": hist.clone()}));
+                            }
+                        }
+                    }
+                    shown[i] = Some((o, via_handler));
+                }
+                // pairwise distinct: funding, four basepoints, points 0/1, every secret key, the commitment
+                // seed, keys_id and the first released secret
+                for i in 0..n {
+                    for j in (i + 1)..n {
+                        if let (Some((a, ha)), Some((b, hb))) = (&shown[i], &shown[j]) {
+                            n_pairs += 1;
+                            let mut same: Vec<&str> = vec![];
+                            if (0..5).any(|x| a.basepoints[x] == b.basepoints[x]) {
+                                same.push("funding key / basepoints");
+                            }
+                            if (0..6).any(|x| a.keys[x] == b.keys[x]) {
+                                same.push("secret keys / commitment seed");
+                            }
+                            if a.keys_id == b.keys_id {
+                                same.push("keys_id");
+                            }
+                            if a.points.get(&0) == b.points.get(&0) || a.points.get(&1) == b.points.get(&1) {
+                                same.push("per-commitment points 0/1");
+                            }
+                            if let (Some(x), Some(y)) = (a.secrets.get(&0), b.secrets.get(&0)) {
+                                if x == y {
+                                    same.push("first secret");
+                                }
+                            }
+                            if !ha.is_empty() && ha.iter().zip(hb.iter()).any(|(x, y)| x == y) {
+                                same.push("keys reported by the handlers");
+                            }
+                            if !same.is_empty() {
+                                violations.push(json!({
+                                    "what": format!("two different (peer, dbid) channels share {} ({})", same.join(", "), phase),
+                                    "first": {"peer": hexs(&names[i].0), "dbid": names[i].1.to_string()},
+                                    "second": {"peer": hexs(&names[j].0), "dbid": names[j].1.to_string()},
+                                    "run": run_ix, "history": hist.clone()}));
+                            }
+                        }
+                    }
+                }
+            }
+            histories.push(hist);
+        }
+        n_channels += n as u64;
+        // Coq: the id bytes of every channel against the model's encoder, and the keys of three channels
+        // (the low-32-bits twin, a random one, the last) from (seed, own id)
+        let idcases: Vec<String> = (0..n)
+            .map(|i| {
+                let real = real_ids[i].clone().unwrap_or_default();
+                format!("({}, {}, {})", coq_bytes(&names[i].0), names[i].1, coq_bytes(&real))
+            })
+            .collect();
+        let mut kc: Vec<String> = vec![];
+        for i in [1usize, 2 + rng.below(n as u64 - 3) as usize, n - 1] {
+            if let Some((o, _)) = &canon[i] {
+                let kid = hex::decode(&o.keys_id).unwrap();
+                let oracle = if matches!(style, KeyDerivationStyle::Ldk) {
+                    let (idx, child) = ldk_child(&seed, &kid);
+                    format!("[([3; {}], {})]", idx, coq_bytes(&child))
+                } else {
+                    "[]".to_string()
+                };
+                let keys_coq: Vec<String> = o.keys.iter().map(|h| coq_bytes(&hex::decode(h).unwrap())).collect();
+                let secs: Vec<String> = o.secrets.iter().take(1).map(|(n, s)| format!("({}, {})", n, coq_bytes(&hex::decode(s).unwrap()))).collect();
+                kc.push(format!(
+                    "(({}, 0, {}, {}), {}, {}, {}, {})",
+                    style_name(style), coq_bytes(&seed), coq_bytes(&own_id(&names[i].0, names[i].1)), oracle,
+                    coq_list(&keys_coq), coq_bytes(&kid), coq_list(&secs)
+                ));
+            }
+        }
+        emit(
+            "CASE",
+            json!({"kind": "ids", "style": style_name(style), "proto": proto, "seed": hexs(&seed),
+                   "names": names.iter().map(|(p, d)| json!([if *p == pa { "A" } else { "B" }, d.to_string()])).collect::<Vec<_>>(),
+                   "peer_a": hexs(&pa), "peer_b": hexs(&pb), "histories": histories,
+                   "monitor_violations": violations, "coq_ids": idcases, "coq_keys": kc}),
+        );
+    }
+    emit(
+        "STATS",
+        json!({"kind": "keys-ids", "cases": args.n, "channels": n_channels, "pairs_compared": n_pairs,
+               "created_through_new_channel_message": n_handler_new, "pairs_agreeing_in_low_32_bits": n_low32_pairs}),
+    );
+}
+
 fn main() {
     let argv: Vec<String> = std::env::args().collect();
     let args = parse_args(&argv[2..]);
@@ -1381,6 +1679,7 @@ fn main() {
         "hist" => hist(&args),
         "store" => store(&args),
         "adv" => adv(&args),
+        "ids" => ids(&args),
         other => panic!("unknown sub-domain {}", other),
     }
 }
